@@ -523,6 +523,26 @@ func c06Window(c *Ctx, sx *symx.Ctx) {
 		return
 	}
 	f := sx.Of(fn)
+	// a re-ranker that returns the whole list it was given cuts nothing,
+	// whatever window it blends
+	if ri := resultIdx(fn); ri >= 0 {
+		var listP ssa.Value
+		for _, p := range fn.Params {
+			if srSlice(p.Type()) {
+				listP = p
+			}
+		}
+		whole := listP != nil
+		for _, ret := range ssau.ReturnsOf(fn) {
+			if ssau.Strip(ssau.ResultValue(ret, ri)) != listP {
+				whole = false
+			}
+		}
+		if whole {
+			r.OK("O-6", fk+"#window-multiplier", c.P.Pos(fn.Pos()), "every return hands back the whole candidate list: nothing is cut")
+			return
+		}
+	}
 	var M float64 = -1
 	ssau.ForEachInstr(fn, false, func(in ssa.Instruction) {
 		bo, ok := in.(*ssa.BinOp)
